@@ -419,7 +419,8 @@ def check_case(prop, sp, col, shard, n_hist, depth, seed_parts):
             col.count('skipped_no_architecture')
             return
     except OverflowError:
-        pass
+        col.count('skipped_ref_too_large')
+        return
     emit = Emit(prop, col, sp, flags)
     rnd = gen.rng_for('histops', *seed_parts)
     total = 0
